@@ -176,6 +176,7 @@ type Link struct {
 	Script   []SItem   `json:"script,omitempty"` // scripted end's output after the handshake
 	Glue     int       `json:"glue,omitempty"`   // scripted end: 0 wait for the handshake, 1 send script glued to its handshake bytes
 	PeerComp string    `json:"peer_comp,omitempty"` // scripted end's handshake behaviour for extensions: "" mirror | both | none | server_only | client_only
+	PeerExtReply string `json:"peer_ext_reply,omitempty"` // scripted server: literal Sec-WebSocket-Extensions value of the 101 (PeerComp then states what it means)
 	PeerExt  []string  `json:"peer_ext,omitempty"`  // scripted client: explicit Sec-WebSocket-Extensions header lines (overrides PeerComp)
 	ScriptChunk int    `json:"script_chunk,omitempty"` // scripted end writes at most this many bytes per Write (0 = whole items)
 	PeerClose string   `json:"peer_close,omitempty"` // what the scripted end does at the end of the script: "" keep open | fin | rst
